@@ -49,11 +49,20 @@ def make_endpoint(rid, kind):
 class Replayer(object):
     def __init__(self, kinds):
         from clastic import Route
+        from clastic.middleware import Middleware
         self.kinds = kinds
         self.routes = {}
+        # every application carries one application-level middleware, shared Route objects of kind 'needs' / 'bindv' a
+        # route-level one of another type: binding (successful or failing) must leave app.middlewares alone
+        self.MwApp = type('MwApp', (Middleware,), {})
+        self.MwRoute = type('MwRoute', (Middleware,), {})
+        self.app_mws = {}
+        self.chains = {}
         for rid, kind in kinds.items():
             ms = methods_of(rid)
-            self.routes[rid] = Route(KIND_PAT[kind], make_endpoint(rid, kind), methods=list(ms) if ms else None)
+            rmws = [self.MwRoute()] if kind in ('needs', 'bindv') else []
+            self.routes[rid] = Route(KIND_PAT[kind], make_endpoint(rid, kind), methods=list(ms) if ms else None,
+                                     middlewares=rmws)
         self.snap = dict((rid, self.snapshot(r)) for rid, r in self.routes.items())
         self.apps = {}
         self.fresh = 100
@@ -85,8 +94,10 @@ class Replayer(object):
                     if it['k'] == 'tuple':
                         f += 1
                 self.fresh += len(op['items'])
-                app = Application(entries, resources=res)
+                mws = [self.MwApp()]
+                app = Application(entries, resources=res, middlewares=mws)
                 self.apps[op['a']] = app
+                self.app_mws[op['a']] = list(mws)
             else:
                 it = op['items'][0]
                 entry = self.item_to_entry(it, self.fresh)
@@ -163,6 +174,19 @@ def replay_history(run, rec):
             if app is None:
                 run.violation('application-missing', 'application %s should exist' % a, ctx)
                 return False
+            if [id(m) for m in app.middlewares] != [id(m) for m in R.app_mws.get(a, [])]:
+                run.violation('application-middlewares-changed', 'step %d: %s.middlewares is %r, was constructed with %r'
+                              % (n, a, app.middlewares, R.app_mws.get(a)), dict(ctx, app=a))
+                return False
+            # BoundRoute.bound_apps (the chain of applications a route was bound through): ends with the application that
+            # holds the bound route and never changes once the bound route exists
+            for br in app.routes:
+                chain = [id(x) for x in br.bound_apps]
+                first = R.chains.setdefault(id(br), (br, chain))
+                if chain != first[1] or not chain or chain[-1] != id(app):
+                    run.violation('bound-apps-chain-changed', 'step %d: a bound route of %s (%s) has bound_apps %r'
+                                  % (n, a, br.pattern, br.bound_apps), dict(ctx, app=a))
+                    return False
             obs = R.table_of(app)
             exp = [{'rid': str(e['rid']), 'pattern': exp_pattern(e)} for e in v['table']]
             obs2 = [{'rid': str(o['rid']), 'pattern': o['pattern']} for o in obs]
